@@ -118,6 +118,11 @@ var sites = []site{
 	{Name: "runner-label-conflict", Tmpl: "on: push\njobs:\n  test:\n    runs-on: [ubuntu-latest, windows-latest, @Q@]\n    steps:\n      - run: echo\n"},
 	{Name: "cron", Tmpl: "on:\n  schedule:\n    - cron: @Q@\njobs:\n  test:\n    runs-on: ubuntu-latest\n    steps:\n      - run: echo\n"},
 	{Name: "cron-descriptor", Tmpl: "on:\n  schedule:\n    - cron: \"@@R@\"\njobs:\n  test:\n    runs-on: ubuntu-latest\n    steps:\n      - run: echo\n"},
+	{Name: "cron-tz", Tmpl: "on:\n  schedule:\n    - cron: \"TZ=Asia/To@R@kyo 0 0 * * *\"\njobs:\n  test:\n    runs-on: ubuntu-latest\n    steps:\n      - run: echo\n"},
+	{Name: "cron-crontz", Tmpl: "on:\n  schedule:\n    - cron: \"CRON_TZ=@R@ 0 0 * * *\"\njobs:\n  test:\n    runs-on: ubuntu-latest\n    steps:\n      - run: echo\n"},
+	{Name: "cron-field", Tmpl: "on:\n  schedule:\n    - cron: \"0 0 * * @R@\"\njobs:\n  test:\n    runs-on: ubuntu-latest\n    steps:\n      - run: echo\n"},
+	{Name: "service-credentials", Tmpl: "on: push\njobs:\n  test:\n    runs-on: ubuntu-latest\n    services:\n      @Q@:\n        image: x\n        credentials:\n          username: u\n          password: literal\n    steps:\n      - run: echo\n"},
+	{Name: "container-credentials-literal", Tmpl: "on: push\njobs:\n  test:\n    runs-on: ubuntu-latest\n    container:\n      image: @Q@\n      credentials:\n        username: u\n        password: literal\n    steps:\n      - run: echo\n"},
 	{Name: "shell", Tmpl: hdr + "      - run: echo\n        shell: @Q@\n"},
 	{Name: "defaults-shell", Tmpl: "on: push\ndefaults:\n  run:\n    shell: @Q@\njobs:\n  test:\n    runs-on: ubuntu-latest\n    steps:\n      - run: echo\n"},
 	{Name: "branch-filter", Tmpl: "on:\n  push:\n    branches: [@Q@, \"^bad\"]\njobs:\n  test:\n    runs-on: ubuntu-latest\n    steps:\n      - run: echo\n"},
